@@ -298,16 +298,28 @@ def electionAsFound (l : Led) (sid : Sid) (_alive : Nat) : Led :=
 def electionWedging (l : Led) (sid : Sid) (alive : Nat) : Led :=
   if alive ≥ 3 then electionAsFound l sid alive else election l sid alive
 
+/-- the processes of a session are handled as ONE group, as `Execute`'s loops do: all of them are run together
+    (each subscribing in `Run`, after releasing what an earlier `Run` left) and all of them are stopped together -/
+structure PG where
+  cur   : Option Nat := none   -- the group's current subscriptions
+  runs  : Nat := 0             -- how often the group was run
+  stops : Nat := 0             -- how often it was stopped
+deriving Repr
+
+def runGroup (l : Led) (s : Sess) (g : PG) : Led × PG :=
+  let (l', b) := (l.unsubOpt s.sid g.cur).sub s.sid s.nproc
+  (l', { g with cur := some b, runs := g.runs + 1 })
+
+def stopGroup (l : Led) (s : Sess) (g : PG) : Led × PG :=
+  (l.unsubOpt s.sid g.cur, { g with cur := none, stops := g.stops + 1 })
+
 /-- the second attempt inside `handleError`: election unless the cause is SubsetError; wait loop; the processes run
-    again (each releasing its previous subscription first); the loop's deferred releases -/
-def secondAttempt (elect : Led → Sid → Nat → Led) (l : Led) (s : Sess) (t : Second) (b1 : Option Nat) : Led × Option Nat :=
+    again; the loop's deferred releases -/
+def secondAttempt (elect : Led → Sid → Nat → Led) (l : Led) (s : Sess) (t : Second) (g : PG) : Led × PG :=
   let l2 := if t.elected = .any then l else elect l s.sid t.alive
   let (l3, c) := l2.sub s.sid (waitSubs2 t.elected)
-  let (l4, b2) := if t.fin.ran then
-      let (l', b) := (l3.unsubOpt s.sid b1).sub s.sid s.nproc
-      (l', some b)
-    else (l3, b1)
-  (l4.unsub s.sid c, b2)
+  let (l4, g2) := if t.fin.ran then runGroup l3 s g else (l3, g)
+  (l4.unsub s.sid c, g2)
 
 /-- `handleError` is entered when the first attempt returned an error and the processes are retryable -/
 def Sess.handled (s : Sess) : Bool := s.retryable && !s.out.retOk
@@ -317,47 +329,45 @@ def executeWith (elect : Led → Sid → Nat → Led) (release : List Strm → L
     (l : Led) (s : Sess) : Led × Report :=
   if s.sid ∈ l.pending then
     -- refused before anything is registered; the (never started) processes are stopped
-    (l, ⟨.refused, 0, 0, 0, liveOf l.live s.sid, (l.streams s.sid).length, 0, 0,
-        List.replicate s.nproc 0, List.replicate s.nproc 1, true,
-        liveOf l.elive s.sid, if s.sid ∈ l.estreams then 1 else 0⟩)
+    let (l', g) := stopGroup l s {}
+    (l', ⟨.refused, 0, 0, 0, liveOf l'.live s.sid, (l'.streams s.sid).length, 0, 0,
+        List.replicate s.nproc g.runs, List.replicate s.nproc g.stops, true,
+        liveOf l'.elive s.sid, if s.sid ∈ l'.estreams then 1 else 0⟩)
   else
     let l1 := { l with pending := s.sid :: l.pending }
     -- watchExecution + start (waitForStart | initiate) subscribe
     let (l2, a) := l1.sub s.sid (waitSubs s.role)
-    -- broadcasting (initiate / ready / start messages) opens streams under the session id
+    -- broadcasting (initiate / ready / start messages) opens streams under the session id; each is registered
     let l3 := { l2 with streams := upd l2.streams s.sid (addStreams (l2.streams s.sid) (register s.opened)) }
+    let newlyRegistered := (l3.streams s.sid).length - (l2.streams s.sid).length
     -- every process subscribes in Run
-    let (l4, b1) := if s.out.ran then
-        let (l', b) := l3.sub s.sid s.nproc
-        (l', some b)
-      else (l3, none)
+    let (l4, g1) := if s.out.ran then runGroup l3 s {} else (l3, {})
     -- the wait loops' deferred UnSubscribe
     let l5 := l4.unsub s.sid a
     -- handleError: its own fail-watch first; a second attempt if it classifies the failure; then the watch is released
-    let (l6, b) := if s.handled then
+    let (l6, g2) := if s.handled then
         let (la, w2) := l5.sub s.sid 1
-        let (lb, b) := match s.second with
-          | some t => secondAttempt elect la s t b1
-          | none => (la, b1)
-        (lb.unsub s.sid w2, b)
-      else (l5, b1)
-    -- Execute's deferred block: CloseSession; flag := false; Stop every process
+        let (lb, g) := match s.second with
+          | some t => secondAttempt elect la s t g1
+          | none => (la, g1)
+        (lb.unsub s.sid w2, g)
+      else (l5, g1)
+    -- Execute's deferred block: CloseSession (every registered stream is closed, the entry released); flag := false;
+    -- Stop every process
     let l7 := { l6 with streams := upd l6.streams s.sid (release (l6.streams s.sid)) }
     let l8 := { l7 with pending := l7.pending.filter (· ≠ s.sid) }
-    let l9 := l8.unsubOpt s.sid b
+    let (l9, g3) := stopGroup l8 s g2
     let retOk := if s.handled then (match s.second with
       | some t => t.fin.retOk
       | none => false) else s.out.retOk
-    let ran2 := s.handled && (match s.second with
-      | some t => t.fin.ran
-      | none => false)
     (l9, ⟨if retOk then .ok else .err,
           l9.subs - l.subs, l9.unsubs - l.unsubs, 1,
           liveOf l9.live s.sid, (l9.streams s.sid).length,
-          -- opened streams that were never registered are never closed by anybody
-          s.opened.length - (register s.opened).length,
+          -- only registered streams are ever closed by the release; a stream refused in favour of a stale entry is
+          -- counted under `stale`
+          s.opened.length - newlyRegistered - staleHits (l.streams s.sid) (register s.opened),
           staleHits (l.streams s.sid) s.opened,
-          List.replicate s.nproc ((if s.out.ran then 1 else 0) + (if ran2 then 1 else 0)), List.replicate s.nproc 1,
+          List.replicate s.nproc g3.runs, List.replicate s.nproc g3.stops,
           decide (s.sid ∈ l9.pending),
           liveOf l9.elive s.sid, if s.sid ∈ l9.estreams then 1 else 0⟩)
 
